@@ -16,6 +16,9 @@ import copy
 import json
 import re
 
+import sys
+
+import c07_nontext
 import env
 import translate_c07
 from core import Exn, cstr, cbool, copt, clist
@@ -1294,6 +1297,7 @@ def run(ctx):
     check_lower(ctx)
     unit_functions(ctx)
     unit_worlds(ctx)
+    c07_nontext.unit_nontext(ctx, sys.modules[__name__], correspond=False)
     witness_replay(ctx)
 
 
@@ -1302,6 +1306,9 @@ def replay(ctx, payload):
     print("replay input:", json.dumps(inp, ensure_ascii=False)[:3000])
     env.tool_inprocess(True)
     unit = inp.get("unit")
+    if unit and unit.startswith("nontext_"):
+        c07_nontext.replay(sys.modules[__name__], inp)
+        return 0
     if unit in ("e2e_authn", "e2e_attribute", "restrict", "setup_assertion"):
         w = World(ctx.rng, 0, [], fixed=(inp["sps"], inp["policy"], inp["policy"]))
         if unit == "e2e_authn":
